@@ -1,8 +1,10 @@
 #!/bin/bash
 # usage: tools/run_seeds.sh <ID> [check-to-run=<ID>]   runs the check against every seeded change of <ID> (via build overlay)
+# SEED_KS="4 5" restricts the run to those seed indices
 id=$1; chk=${2:-$1}
 for d in /verif/seeded/$id/*/; do
   k=$(basename $d)
+  [ -n "${SEED_KS:-}" ] && ! echo " $SEED_KS " | grep -q " $k " && continue
   ov=$(/verif/tools/seed_overlay.sh $d/patch.diff ${id,,}-$k)
   VERIF_MUTANT_OVERLAY=$ov VERIF_OUT_DIR=/root/scratch/mut/seed-$id-$k timeout 3600 /verif/check $chk quick > /root/scratch/seedrun_${id}_$k.log 2>&1
   rc=$?
